@@ -71,6 +71,30 @@ CHECKS["C13"] = dict(
               "observation histories replayed into the real LazyList",
 )
 
+CHECKS["C01"] = dict(
+    text="VyMachine is a small-step TLA+ semantics of Vyxal programs (structures, call protocol, modifiers, input, "
+         "implicit output). TLC explores every program up to the token bound on three input lists step by step "
+         "(MC_Machine). The implementation runs the same small programs and structured random programs through "
+         "execute_vyxal with statement probes; TLC steps the machine in lock-step with the probes (Trace_Machine) "
+         "and decides the property on the final forced stack and the captured stdout.",
+    note="Trusted: the transcription of the templates/semantics in spec/VyMachine.tla, VyValues.tla (closed core on "
+         "integers and integer lists; anything else = skip:undefined, counted). Lazily mapped lambda bodies must be "
+         "pure (checked by the model, else skipped). Bounds: <= 3/4 symbols exhaustive, depth <= 4 random.",
+    ref="DESIGN.md section 6 C01",
+    technique="TLA+ small-step semantics (VyMachine) model-checked by TLC + lock-step TLC validation of probe traces "
+              "of execute_vyxal",
+)
+CHECKS["C12"] = dict(
+    text="MC_Machine checks BalancedAtEnd and TopLevelBalanced (the four bookkeeping depths and the context value) on "
+         "every state of every small program, including break/continue at every position; every module-frame probe "
+         "and the final state of real runs log the four depths and the context value, and TLC evaluates the balance "
+         "where the machine is outside all loops (Trace_Machine, verdict W).",
+    note="Trusted: VyMachine's position (loop depth 0) decides which probes are 'outside all loops'; depths are read "
+         "from the real Context object after the run. Same bounds as C01.",
+    ref="DESIGN.md section 6 C12",
+    technique="TLA+ invariants on VyMachine model-checked by TLC + TLC validation of logged context depths",
+)
+
 NOT_APPLICABLE = {}
 
 DEFAULT_NA = ("check under construction in this round; it will be claimed when its TLA+ module and "
